@@ -74,6 +74,11 @@ impl FixtureDatabase {
             }
         };
 
+        // The index is about to change (definitions may be removed, imports may differ):
+        // invalidate everything cached against the previous definitions version, even if
+        // this analysis ends up recording no definition at all.
+        self.invalidate_cycle_cache();
+
         // Clear previous usages for this file (only after successful parse)
         self.cleanup_usages_for_file(&file_path);
         self.usages.remove(&file_path);
